@@ -257,6 +257,9 @@ def run(ctx):
         rank, st, detail, cex, mode, count = agg[name]
         native = _replay(py, name, cex) if st == "failed" else None
         ctx.add(Ob("C10." + name, "c", st, "z3", solver_s / max(1, len(agg)), "%s [%d path instances; measurements=%s]" % (detail, count, mode), cex=cex, native=native))
+    from props import helpers
+    helpers.interpolate_pva(ctx, py, "C10")
+    helpers.numpy_contracts_standin(ctx, py, "C10")
     _standin(ctx, py)
 
 
